@@ -93,7 +93,7 @@ def chunked_encode(rng, b, body, fault=None):
             ext = rng.choice([b";ext=1", b";a", b";a=b;c=d", b";q=\"x y\"", b" ;a=b", b"; a = b", b";a=\"\\\"\""])
             b.tags.append("chunk-ext")
         if i == fault_at and fault == 'chunk-size-bad':
-            sz = rng.choice([b"g", b"-" + sz, b"+" + sz, b"0x" + sz, b"", b" " + sz, b"x" + sz, b"\t" + sz])
+            sz = rng.choice([b"g", b"-" + sz, b"+" + sz, b"0x" + sz, b"", b" " + sz, b"x" + sz, b"\t" + sz, b";x", b";ext=1", b";"])   # the last three: an extension but no size digit
             b.tags.append("chunk-size-bad")
         if i == fault_at and fault == 'chunk-size-junk':
             sz = sz + rng.choice([b" x", b"x", b";", b";=", b" ", b"\t", b";a=", b"zz"])
@@ -120,6 +120,11 @@ def chunked_encode(rng, b, body, fault=None):
     if fault == 'chunk-ext' and (fault_at < 0 or rng.random() < 0.3):
         last += rng.choice([b";last=1", b";x"])
         b.tags.append("chunk-ext")
+    if fault == 'chunk-size-bad' and (fault_at < 0 or rng.random() < 0.35):
+        # the terminating chunk itself has no size digit: only an implementation that takes "no digits" for zero
+        # finds a complete message here
+        last = rng.choice([b";x", b";last=1", b";"])
+        b.tags.append("chunk-size-bad")
     if fault == 'no-last-chunk':
         b.tags.append("no-last-chunk")
         return
